@@ -321,8 +321,9 @@ def mkconf(store="mem", ro=False, push=True, delete=True, blobdelete=True, refer
 
 def s_cfg(c):
     bb = lambda x: "true" if x else "false"
-    return sl("cfg", "dir" if c["store"] == "dir" else "mem", bb(c["ro"]), bb(c["push"]), bb(c["delete"]),
-              bb(c["blobdelete"]), bb(c["referrer"]), str(c["mlimit"]), str(c["rlimit"]),
+    # unset switches (None) mean the documented defaults: push on, delete off, blob delete off, referrers on, writable
+    return sl("cfg", "dir" if c["store"] == "dir" else "mem", bb(dflt(c["ro"], False)), bb(dflt(c["push"], True)), bb(dflt(c["delete"], False)),
+              bb(dflt(c["blobdelete"], False)), bb(dflt(c["referrer"], True)), str(c["mlimit"]), str(c["rlimit"]),
               str(c.get("uploadmax") or 1000),
               bb(dflt(c.get("untagged"), False)), bb(dflt(c.get("dangling"), False)), bb(dflt(c.get("withsubj"), True)),
               str(c.get("grace_ms") or 3600000))
@@ -352,6 +353,7 @@ def restart_step():
 def api_binary(ctx, race=False):
     ov = {
         "verif_api_driver_test.go": os.path.join(VERIF, "harness/inpkg/api_driver_test.go"),
+        "verif_conf_driver_test.go": os.path.join(VERIF, "harness/inpkg/conf_driver_test.go"),
         "internal/store/verif_hooks.go": os.path.join(VERIF, "harness/hooks/store_verif.go"),
         "internal/cache/verif_hooks.go": os.path.join(VERIF, "harness/hooks/cache_verif.go"),
     }
